@@ -111,6 +111,7 @@ func socket(ctx context.Context, net string, family, sotype, proto int, ipv6only
 	}
 	err = setDefaultSockopts(fd, family, sotype, ipv6only)
 	if err != nil {
+		vp(vpFdClose, nil, int64(fd), 5)
 		syscall.Close(fd)
 		return nil, err
 	}
